@@ -2,8 +2,9 @@
 from pyvc.task import task
 from pyvc.values import Obj, SBool, SReal, StarOpaque, TupleT, UVal
 from .common import *
+from .smc import _find_apps
 
-RJ = "genjax._src.inference.requests.rejuvenate"
+RJ ="genjax._src.inference.requests.rejuvenate"
 SP = "genjax._src.inference.sp"
 
 
@@ -99,8 +100,12 @@ def t_marginal(E):
     args = E.opaque("args", "tuple")
     mg = E.new(SP + ":Marginal", gen_fn=g, selection=sel, algorithm=None)
     w, latent = E.method(mg, "random_weighted", k, StarOpaque(args))
-    split = E.ctx.fn("split", U, z3.IntSort(), z3.IntSort(), U)
-    sub1 = split(k.t, 2, 1)
+    from theory import keys as KY
+    # the simulation key is read off the returned choices (whichever derived key the code uses)
+    sims = _find_apps(z3.simplify(E.I.to_u(latent)), "gf_simulate")
+    E.require("C25.Marginal.random_weighted.returned_choices_come_from_one_simulation_of_the_function", len(sims) == 1)
+    sub1 = sims[0].arg(1)
+    E.prove("C04.Marginal.random_weighted.simulates_with_a_key_derived_from_the_given_key", KY.derived_from(E.I, sub1, k.t), also=["C25"])
     tr = UVal(T.sim(g.t, sub1, args.t), "Trace")
     T.proj_facts(tr.t, sel.t)
     E.prove("C25.Marginal.random_weighted.returns_selected_choices",
@@ -126,15 +131,20 @@ def t_marginal_alg(E):
     alg = E.opaque("alg", "Algorithm")
     mg = E.new(SP + ":Marginal", gen_fn=g, selection=sel, algorithm=alg)
     Z, latent = E.method(mg, "random_weighted", k, StarOpaque(args))
-    split = E.ctx.fn("split", U, z3.IntSort(), z3.IntSort(), U)
-    k_a = split(k.t, 2, 0)
-    tr = UVal(T.sim(g.t, split(k.t, 2, 1), args.t), "Trace")
+    from theory import keys as KY
+    sims = _find_apps(z3.simplify(E.I.to_u(latent)), "gf_simulate")
+    zt = z3.simplify(E.I.to_u(Z))
+    E.require("C25.Marginal.random_weighted.one_simulation_then_one_call_of_the_algorithm", len(sims) == 1 and z3.is_app(zt)
+              and zt.decl().name() == "Algorithm.estimate_reciprocal_normalizing_constant" and zt.num_args() == 5)
+    k_sim, k2 = sims[0].arg(1), zt.arg(1)
+    E.prove("C25.Marginal.random_weighted.simulation_and_algorithm_use_independent_keys_derived_from_the_given_key", z3.And(
+        KY.independent(E.I, k_sim, k2), KY.derived_from(E.I, k_sim, k.t), KY.derived_from(E.I, k2, k.t)))
+    tr = UVal(T.sim(g.t, k_sim, args.t), "Trace")
     ch = T.tr_choices(tr.t)
     lat = UVal(T.chm_filter_sel(ch, sel.t), "ChoiceMap")
     other = UVal(T.chm_filter_sel(ch, T.sel_not(sel.t)), "ChoiceMap")
     target = E.new(SP + ":Target", p=g, args=args, constraint=lat)
     fn = E.ctx.fn("Algorithm.estimate_reciprocal_normalizing_constant", U, U, U, U, U, U)
-    k2 = split(k_a, 2, 0)
     # w handed to the algorithm: density of the unselected ("other") choices under the internal proposal
     want = fn(alg.t, k2, E.I.to_u(target), other.t, E.I.to_u(SReal(T.proj(g.t, tr.t, T.sel_not(sel.t)))))
     E.prove("C25.Marginal.random_weighted.algorithm_gets_target_other_choices_and_their_proposal_density",
